@@ -11,6 +11,7 @@ open Gojq Gojq.MiniVM
 
 attribute [local instance] specMsg
 
+mutual
 /-- nesting depth -/
 def qDepth : Q → Nat
   | .pipe a b => max (qDepth a) (qDepth b) + 1
@@ -24,7 +25,15 @@ def qDepth : Q → Nat
   | .bind _ s b => max (qDepth s) (qDepth b) + 1
   | .reduce _ src init upd => max (qDepth src) (max (qDepth init) (qDepth upd)) + 1
   | .foreach _ src init upd ext => max (max (qDepth src) (qDepth init)) (max (qDepth upd) (qDepth ext)) + 1
+  | .delay q => qDepth q + 1
+  | .obj sp => spineDepth sp + 1
   | _ => 0
+/-- … of the keys and values of a spine -/
+def spineDepth : Q → Nat
+  | .objSnoc init k v => max (spineDepth init) (max (qDepth k) (qDepth v))
+  | .objSnocC init _ v => max (spineDepth init) (qDepth v)
+  | _ => 0
+end
 
 theorem nd_done : ND MiniVM.Stop.done := trivial
 theorem nd_err (e : MiniVM.Err) : ND (MiniVM.Stop.err e) := trivial
@@ -115,6 +124,28 @@ theorem foreachL_nd {upd ext : V → V → MiniVM.Res} (hu : ∀ w s, ND (upd w 
     exact guardND_nd_of (hu w s)
       (seq_nd_of (bindL_nd (he w) _ _ (hu w s)) (foreachL_nd hu he hf ws _))
 
+/-- every key and value of the entries completes -/
+def EntriesND (ev : Q → V → MiniVM.Res) (es : List (EKey × Q)) : Prop :=
+  ∀ kv ∈ es, (match kv.1 with | .q k => ∀ x, ND (ev k x).stop | .c _ => True) ∧ ∀ x, ND (ev kv.2 x).stop
+
+theorem objOfPairs_nd (acc : List (V × V)) : ND (objOfPairs acc).stop := by
+  unfold objOfPairs; split <;> trivial
+
+theorem evalEntries_nd {ev : Q → V → MiniVM.Res} {x : V} : ∀ (es : List (EKey × Q)) (acc : List (V × V)),
+    EntriesND ev es → ND (evalEntries ev x es acc).stop
+  | [], acc, _ => objOfPairs_nd acc
+  | (.q k, v) :: rest, acc, h => by
+    have hk := (h (.q k, v) (by simp)).1 x
+    have hv := (h (.q k, v) (by simp)).2 x
+    simp only [evalEntries, bindG_eq_guardND]
+    exact guardND_nd_of hk (bindL_nd (fun kk => guardND_nd_of hv
+      (bindL_nd (fun vv => evalEntries_nd rest _ (fun kv hm => h kv (by simp [hm]))) _ _ hv)) _ _ hk)
+  | (.c key, v) :: rest, acc, h => by
+    have hv := (h (.c key, v) (by simp)).2 x
+    simp only [evalEntries, bindG_eq_guardND]
+    exact guardND_nd_of hv (bindL_nd (fun vv => evalEntries_nd rest _ (fun kv hm => h kv (by simp [hm]))) _ _ hv)
+
+mutual
 /-- without function calls (and outside any function: no closure) the mini evaluator completes
     with any fuel above the nesting depth -/
 theorem eval_nd_of_callfree (defs : Name → Q) : ∀ (q : Q) (n : Nat) (g : Ctx) (vars : List (Nat × V)) (v : V),
@@ -141,6 +172,18 @@ theorem eval_nd_of_callfree (defs : Name → Q) : ∀ (q : Q) (n : Nat) (g : Ctx
       | none => ⟨[], .err (.noVar x)⟩).stop
     cases MiniVM.lookup x vars <;> trivial
   | .call1 f a, n+1, _, _, _, hc, _ => by simp [callsBelow] at hc
+  | .obj sp, n+1, g, vars, v, hc, hd => by
+    simp only [callsBelow] at hc
+    simp only [qDepth] at hd
+    show ND (evalEntries (fun q x => eval defs n g ⟨.none, vars⟩ q x) v sp.entries []).stop
+    exact evalEntries_nd _ _ (spine_nd_of_callfree defs sp n g vars hc (by omega))
+  | .objStart, n+1, _, _, _, hc, _ => by simp [callsBelow] at hc
+  | .objSnoc _ _ _, n+1, _, _, _, hc, _ => by simp [callsBelow] at hc
+  | .objSnocC _ _ _, n+1, _, _, _, hc, _ => by simp [callsBelow] at hc
+  | .delay q, n+1, g, vars, v, hc, hd => by
+    simp only [callsBelow] at hc
+    simp only [qDepth] at hd
+    exact eval_nd_of_callfree defs q n g vars v hc (by omega)
   | .pipe a b, n+1, g, vars, v, hc, hd => by
     simp only [callsBelow, Bool.and_eq_true] at hc
     simp only [qDepth] at hd
@@ -207,6 +250,36 @@ theorem eval_nd_of_callfree (defs : Name → Q) : ∀ (q : Q) (n : Nat) (g : Ctx
     refine guardND_nd_of hi (bindL_nd (fun s0 => guardND_nd_of hs ?_) _ _ hi)
     exact foreachL_nd (fun w st => eval_nd_of_callfree defs upd n g ((x, w) :: vars) st hc.1.2 (by omega))
       (fun w u => eval_nd_of_callfree defs ext n g ((x, w) :: vars) u hc.2 (by omega)) hs _ _
+
+/-- … and so do the keys and values of a call-free spine -/
+theorem spine_nd_of_callfree (defs : Name → Q) : ∀ (sp : Q) (n : Nat) (g : Ctx) (vars : List (Nat × V)),
+    spineCallsBelow 0 sp = true → spineDepth sp < n →
+    EntriesND (fun q x => eval defs n g ⟨.none, vars⟩ q x) sp.entries
+  | .objStart, _, _, _, _, _ => by intro kv h; simp [Q.entries] at h
+  | .objSnoc init k v, n, g, vars, hc, hd => by
+    simp only [spineCallsBelow, Bool.and_eq_true] at hc
+    simp only [spineDepth] at hd
+    intro kv hkv
+    simp only [Q.entries, List.mem_append, List.mem_singleton] at hkv
+    rcases hkv with hkv | rfl
+    · exact spine_nd_of_callfree defs init n g vars hc.1.1 (by omega) kv hkv
+    · exact ⟨fun x => eval_nd_of_callfree defs k n g vars x hc.1.2 (by omega),
+        fun x => eval_nd_of_callfree defs v n g vars x hc.2 (by omega)⟩
+  | .objSnocC init key v, n, g, vars, hc, hd => by
+    simp only [spineCallsBelow, Bool.and_eq_true] at hc
+    simp only [spineDepth] at hd
+    intro kv hkv
+    simp only [Q.entries, List.mem_append, List.mem_singleton] at hkv
+    rcases hkv with hkv | rfl
+    · exact spine_nd_of_callfree defs init n g vars hc.1 (by omega) kv hkv
+    · exact ⟨trivial, fun x => eval_nd_of_callfree defs v n g vars x hc.2 (by omega)⟩
+  | .id, _, _, _, hc, _ | .const _, _, _, _, hc, _ | .pipe _ _, _, _, _, hc, _ | .comma _ _, _, _, _, hc, _
+  | .iter, _, _, _, hc, _ | .empty, _, _, _, hc, _ | .arr _, _, _, _, hc, _ | .param, _, _, _, hc, _
+  | .call1 _ _, _, _, _, hc, _ | .error, _, _, _, hc, _ | .try_ _, _, _, _, hc, _ | .tryCatch _ _, _, _, _, hc, _
+  | .index _, _, _, _, hc, _ | .ite _ _ _, _, _, _, hc, _ | .alt _ _, _, _, _, hc, _ | .var _, _, _, _, hc, _
+  | .bind _ _ _, _, _, _, hc, _ | .reduce _ _ _ _, _, _, _, hc, _ | .foreach _ _ _ _ _, _, _, _, hc, _
+  | .obj _, _, _, _, hc, _ | .delay _, _, _, _, hc, _ => by simp [spineCallsBelow] at hc
+end
 
 /-- the main query calls no function -/
 def callFree (p : Prog) : Bool := callsBelow 0 p.main
